@@ -22,6 +22,9 @@ type c12Case struct {
 	AuthBackend                             bool
 	LMTP                                    bool
 	Order                                   []int `json:",omitempty"` // probe order (thorough: random)
+	// Spell: how command verbs and parameter keywords are spelled: 0 upper
+	// case, 1 lower case, 2 alternating (both are case-insensitive)
+	Spell int `json:",omitempty"`
 }
 
 func c12Expected(c c12Case) []string {
@@ -101,9 +104,16 @@ func c12Run(c c12Case) Verdict {
 		return Verdict{Inconclusive: "server not idle after connect: " + st}
 	}
 	w.Recv()
-	g := greetWord(c.LMTP)
+	g := respell(greetWord(c.LMTP), c.Spell)
+	spl := func(lines string) []byte {
+		ls := strings.Split(lines, "\r\n")
+		for i := range ls {
+			ls[i] = respell(ls[i], c.Spell)
+		}
+		return []byte(strings.Join(ls, "\r\n"))
+	}
 	if c.TLS == "upgraded" {
-		out, _ := w.Exchange([]byte(g + " pre\r\nSTARTTLS\r\n"))
+		out, _ := w.Exchange(spl(g + " pre\r\nSTARTTLS\r\n"))
 		if !strings.Contains("\r\n"+string(out), "\r\n220 ") {
 			w.Finish()
 			return failf("starttls", "STARTTLS advertised/configured but not accepted: %s", q(out))
@@ -115,7 +125,7 @@ func c12Run(c c12Case) Verdict {
 		w.WaitQuiet()
 	}
 	if c.TLS == "failed" {
-		out, st := w.Exchange([]byte(g + " pre\r\nSTARTTLS\r\n"))
+		out, st := w.Exchange(spl(g + " pre\r\nSTARTTLS\r\n"))
 		if st != harness.QIdle || !strings.Contains("\r\n"+string(out), "\r\n220 ") {
 			w.Finish()
 			return failf("starttls", "STARTTLS advertised/configured but not accepted: %s", q(out))
@@ -150,7 +160,7 @@ func c12Run(c c12Case) Verdict {
 	}
 	// 2. HELO lists none
 	if !c.LMTP {
-		out, _ := w.Exchange([]byte("HELO cli\r\n"))
+		out, _ := w.Exchange(spl("HELO cli\r\n"))
 		hr, perr := harness.ParseReplies(out)
 		if perr != nil || len(hr) != 1 || hr[0].Code != 250 || len(hr[0].Lines) != 1 {
 			return fail(failf("helo", "HELO must be answered with a single-line 250, got %q", out))
@@ -262,7 +272,7 @@ func c12Run(c c12Case) Verdict {
 		p := probes[pi%len(probes)]
 		var cv conv
 		for _, l := range p.lines {
-			cv.cmd(l)
+			cv.cmd(respell(l, c.Spell))
 		}
 		// "BDAT 2 LAST\r\nhi" + CRLF from cmd(): strip the CRLF after the payload
 		if p.name == "chunking" {
@@ -283,7 +293,7 @@ func c12Run(c c12Case) Verdict {
 	}
 	// AUTH
 	authAdvertised := (active || c.InsecureAuth) && c.AuthBackend
-	out, _ = w.Exchange([]byte("AUTH PLAIN AHUAcHc=\r\n"))
+	out, _ = w.Exchange(spl("AUTH PLAIN AHUAcHc=\r\n"))
 	ar, perr := harness.ParseReplies(out)
 	if perr != nil || len(ar) != 1 {
 		return fail(failf("probe-auth", "AUTH: %v %v", codes(ar), perr))
@@ -295,7 +305,7 @@ func c12Run(c c12Case) Verdict {
 		return fail(failf("probe-auth", "configuration %+v: AUTH is not available but AUTH PLAIN was answered %s", c, ar[0]))
 	}
 	// STARTTLS last
-	out, _ = w.Exchange([]byte("STARTTLS\r\n"))
+	out, _ = w.Exchange(spl("STARTTLS\r\n"))
 	sr, perr := harness.ParseReplies(out)
 	if perr != nil || len(sr) != 1 {
 		return fail(failf("probe-starttls", "STARTTLS: %v %v", codes(sr), perr))
@@ -324,7 +334,7 @@ func c12Run(c c12Case) Verdict {
 		}
 		// what the new session is offered must work, whatever happened in plaintext
 		if c.AuthBackend {
-			out, _ := w.Exchange([]byte("AUTH PLAIN AHUAcHc=\r\n"))
+			out, _ := w.Exchange(spl("AUTH PLAIN AHUAcHc=\r\n"))
 			ar2, perr := harness.ParseReplies(out)
 			if perr != nil || len(ar2) != 1 || ar2[0].Code != 235 {
 				return fail(failf("probe-auth", "configuration %+v: after STARTTLS AUTH is advertised but AUTH PLAIN was answered %v (an earlier plaintext authentication must not count)", c, codes(ar2)))
@@ -354,7 +364,7 @@ func c12All() []c12Case {
 						for _, ab := range []bool{false, true} {
 							for _, lmtp := range []bool{false, true} {
 								out = append(out, c12Case{UTF8: bits&1 != 0, RequireTLS: bits&2 != 0, BinaryMIME: bits&4 != 0, DSN: bits&8 != 0, RRVS: bits&16 != 0,
-									Size: size, RcptMax: rm, TLS: tls, InsecureAuth: ins, AuthBackend: ab, LMTP: lmtp})
+									Size: size, RcptMax: rm, TLS: tls, InsecureAuth: ins, AuthBackend: ab, LMTP: lmtp, Spell: len(out) % 3})
 							}
 						}
 					}
@@ -379,7 +389,7 @@ func init() {
 
 func TestC12(t *testing.T) {
 	registerAll()
-	st.Rule = "cases = all 7680 configurations (5 extension flags x size limit none/1000/8 GiB x recipient limit x TLS none/available/active/active through a caller-wrapped listener/available after a failed upgrade x AllowInsecureAuth x auth-capable backend x SMTP/LMTP), each: exact capability set vs a table, HELO single-line, one probe per extension, lines mixing parameters of enabled and disabled extensions, a DATA transaction after them, AUTH and STARTTLS probes, capability list again after an upgrade; thorough adds random probe orders and TLS activated through STARTTLS; non-trivial = configuration with at least one optional capability; distinct = hash of the configuration"
+	st.Rule = "cases = all 7680 configurations (5 extension flags x size limit none/1000/8 GiB x recipient limit x TLS none/available/active/active through a caller-wrapped listener/available after a failed upgrade x AllowInsecureAuth x auth-capable backend x SMTP/LMTP), each: exact capability set vs a table, HELO single-line, one probe per extension (verbs and parameter keywords in upper, lower or alternating case), lines mixing parameters of enabled and disabled extensions, a DATA transaction after them, AUTH and STARTTLS probes, capability list again after an upgrade; thorough adds random probe orders and TLS activated through STARTTLS; non-trivial = configuration with at least one optional capability; distinct = hash of the configuration"
 	if !regress(t, "C12") {
 		return
 	}
@@ -406,6 +416,7 @@ func TestC12(t *testing.T) {
 			c.TLS = "upgraded"
 		}
 		c.Order = rapid.Permutation(seqInts(22)).Draw(rt, "order")
+		c.Spell = rapid.IntRange(0, 2).Draw(rt, "spell")
 		return c
 	})
 }
